@@ -69,17 +69,73 @@ fn own_text_range() -> (usize, usize) {
     }
 }
 
+#[inline(always)]
+fn in_text(addr: usize) -> bool {
+    addr >= TEXT_LO.load(Ordering::Relaxed) && addr < TEXT_HI.load(Ordering::Relaxed)
+}
+
+/// An arrival at an instruction of this executable while stepping: count it, record it (trace mode), or park the
+/// client when the requested count is reached.
+#[cfg(target_arch = "x86_64")]
+unsafe fn arrival(rip: usize, gregs: &mut [i64; 23], traps: u32) {
+    const TF: i64 = 0x100;
+    let c = COUNT.with(|c| {
+        c.set(c.get() + 1);
+        c.get()
+    });
+    let tp = TRACE_PTR.with(|p| p.get());
+    if !tp.is_null() {
+        // trace mode: record, never preempt
+        if c <= TRACE_CAP.with(|x| x.get()) {
+            *tp.add(c as usize - 1) = (rip - TEXT_LO.load(Ordering::Relaxed)) as u32;
+        } else {
+            gregs[libc::REG_EFL as usize] &= !TF;
+            ARMED.with(|a| a.set(false));
+        }
+        return;
+    }
+    if c >= BUDGET.with(|b| b.get()) {
+        gregs[libc::REG_EFL as usize] &= !TF;
+        ARMED.with(|a| a.set(false));
+        TRAPS_TOTAL.fetch_add(traps as u64, Ordering::Relaxed);
+        STEPS_COUNTED.fetch_add(c as u64, Ordering::Relaxed);
+        FIRED_BY_COUNT.fetch_add(1, Ordering::Relaxed);
+        let f = ON_FIRE.load(Ordering::Relaxed);
+        if f != 0 {
+            let errno = *libc::__errno_location();
+            let f: fn() = std::mem::transmute(f);
+            f();
+            *libc::__errno_location() = errno;
+        }
+    }
+}
+
 #[cfg(target_arch = "x86_64")]
 extern "C" fn on_trap(_sig: libc::c_int, info: *mut libc::siginfo_t, ctx: *mut libc::c_void) {
     unsafe {
-        if !info.is_null() && (*info).si_code == 6 {
-            // TRAP_PERF: the hardware breakpoint of this thread
-            on_break_hit();
-            return;
-        }
         let uc = ctx as *mut libc::ucontext_t;
         let gregs = &mut (*uc).uc_mcontext.gregs;
         const TF: i64 = 0x100;
+        if !info.is_null() && (*info).si_code == 6 {
+            // TRAP_PERF: a hardware breakpoint of this thread
+            let so = STEPOVER_FD.with(|f| f.replace(-1));
+            if so >= 0 {
+                // back from code outside the executable: go on stepping, this instruction included
+                libc::ioctl(so, 0x2401, 0);
+                libc::close(so);
+                if ARMED.with(|a| a.get()) {
+                    gregs[libc::REG_EFL as usize] |= TF;
+                    let traps = TRAPS.with(|t| {
+                        t.set(t.get() + 1);
+                        t.get()
+                    });
+                    arrival(gregs[libc::REG_RIP as usize] as usize, gregs, traps);
+                }
+                return;
+            }
+            on_break_hit();
+            return;
+        }
         if !ARMED.with(|a| a.get()) {
             gregs[libc::REG_EFL as usize] &= !TF;
             return;
@@ -89,37 +145,26 @@ extern "C" fn on_trap(_sig: libc::c_int, info: *mut libc::siginfo_t, ctx: *mut l
             t.set(t.get() + 1);
             t.get()
         });
-        let in_text = rip >= TEXT_LO.load(Ordering::Relaxed) && rip < TEXT_HI.load(Ordering::Relaxed);
-        if in_text {
-            let c = COUNT.with(|c| {
-                c.set(c.get() + 1);
-                c.get()
-            });
-            let tp = TRACE_PTR.with(|p| p.get());
-            if !tp.is_null() {
-                // trace mode: record, never preempt
-                if c <= TRACE_CAP.with(|x| x.get()) {
-                    *tp.add(c as usize - 1) = (rip - TEXT_LO.load(Ordering::Relaxed)) as u32;
-                } else {
-                    gregs[libc::REG_EFL as usize] &= !TF;
-                    ARMED.with(|a| a.set(false));
-                }
+        if in_text(rip) {
+            arrival(rip, gregs, traps);
+            if !ARMED.with(|a| a.get()) {
                 return;
             }
-            if c >= BUDGET.with(|b| b.get()) {
-                gregs[libc::REG_EFL as usize] &= !TF;
-                ARMED.with(|a| a.set(false));
-                TRAPS_TOTAL.fetch_add(traps as u64, Ordering::Relaxed);
-                STEPS_COUNTED.fetch_add(c as u64, Ordering::Relaxed);
-                FIRED_BY_COUNT.fetch_add(1, Ordering::Relaxed);
-                let f = ON_FIRE.load(Ordering::Relaxed);
-                if f != 0 {
-                    let errno = *libc::__errno_location();
-                    let f: fn() = std::mem::transmute(f);
-                    f();
-                    *libc::__errno_location() = errno;
+        } else {
+            // Entering code outside this executable (the C library, the dynamic loader): let it run at full speed
+            // and go on stepping at the return address. Besides saving the traps, this keeps the trap flag out of
+            // `clone`: a thread created while its parent single-steps would inherit the flag with all signals
+            // blocked (the C library blocks them around thread creation), and the kernel would kill the process.
+            let rsp = gregs[libc::REG_RSP as usize] as usize;
+            let ret = *(rsp as *const usize);
+            if in_text(ret) {
+                let fd = open_breakpoint(ret as u64, 1);
+                if fd >= 0 {
+                    STEPOVER_FD.with(|f| f.set(fd));
+                    STEPOVERS.fetch_add(1, Ordering::Relaxed);
+                    gregs[libc::REG_EFL as usize] &= !TF;
+                    return;
                 }
-                return;
             }
         }
         if traps >= TRAP_LIMIT.with(|t| t.get()) {
@@ -181,6 +226,10 @@ pub fn arm(budget: u32) {
 #[inline(always)]
 pub fn disarm() -> bool {
     let was = ARMED.with(|a| a.replace(false));
+    let so = STEPOVER_FD.with(|f| f.replace(-1));
+    if so >= 0 {
+        unsafe { libc::close(so) };
+    }
     if was {
         #[cfg(target_arch = "x86_64")]
         unsafe {
@@ -209,7 +258,12 @@ thread_local! {
     static TRACE_PTR: Cell<*mut u32> = const { Cell::new(std::ptr::null_mut()) };
     static TRACE_CAP: Cell<u32> = const { Cell::new(0) };
     static BREAK_FD: Cell<i32> = const { Cell::new(-1) };
+    /// breakpoint on the return address while code outside the executable runs at full speed
+    static STEPOVER_FD: Cell<i32> = const { Cell::new(-1) };
 }
+
+/// excursions outside the executable that were run at full speed instead of being single-stepped
+pub static STEPOVERS: AtomicU64 = AtomicU64::new(0);
 
 pub static TRACES_RECORDED: AtomicU64 = AtomicU64::new(0);
 pub static BREAKPOINTS_SET: AtomicU64 = AtomicU64::new(0);
@@ -242,8 +296,7 @@ pub fn tracing() -> bool {
 
 /// Programs a hardware execution breakpoint for the calling thread at text offset `offset`, to fire on its
 /// `occurrence`-th execution from now. Returns false if the kernel refuses (no debug register free, no permission).
-pub fn arm_break(offset: u32, occurrence: u32) -> bool {
-    let addr = TEXT_LO.load(Ordering::Relaxed) as u64 + offset as u64;
+fn open_breakpoint(addr: u64, occurrence: u32) -> i32 {
     let mut attr = [0u8; 128];
     attr[0..4].copy_from_slice(&5u32.to_le_bytes()); // PERF_TYPE_BREAKPOINT
     attr[4..8].copy_from_slice(&128u32.to_le_bytes()); // size
@@ -253,7 +306,12 @@ pub fn arm_break(offset: u32, occurrence: u32) -> bool {
     attr[52..56].copy_from_slice(&4u32.to_le_bytes()); // HW_BREAKPOINT_X
     attr[56..64].copy_from_slice(&addr.to_le_bytes());
     attr[64..72].copy_from_slice(&8u64.to_le_bytes()); // sizeof(long)
-    let fd = unsafe { libc::syscall(libc::SYS_perf_event_open, attr.as_ptr(), 0, -1, -1, 8u64 /* PERF_FLAG_FD_CLOEXEC */) } as i32;
+    unsafe { libc::syscall(libc::SYS_perf_event_open, attr.as_ptr(), 0, -1, -1, 8u64 /* PERF_FLAG_FD_CLOEXEC */) as i32 }
+}
+
+pub fn arm_break(offset: u32, occurrence: u32) -> bool {
+    let addr = TEXT_LO.load(Ordering::Relaxed) as u64 + offset as u64;
+    let fd = open_breakpoint(addr, occurrence);
     if fd < 0 {
         BREAKPOINTS_REFUSED.fetch_add(1, Ordering::Relaxed);
         return false;
